@@ -246,6 +246,12 @@ func (vertex *Vertex) Validate() error {
 	if vertex.Label == "" {
 		return errors.New("'label' cannot be blank")
 	}
+	if err := gripql.ValidateIdentifier("gid", vertex.ID); err != nil {
+		return err
+	}
+	if err := gripql.ValidateIdentifier("label", vertex.Label); err != nil {
+		return err
+	}
 	for k := range vertex.Data {
 		err := gripql.ValidateFieldName(k)
 		if err != nil {
